@@ -9,7 +9,7 @@ META = {
     'bounds': ['source messages: edition 4, 3 subsets, templates of harness/c10.py TEMPLATES (plain, delayed replication, character, '
                'compressed 1 and 2 columns, compressed character); every data bit a solver variable (compressed: difference widths 0..1 (2 thorough)); '
                'originating centre, data category and year solver integers',
-               'index collections: length 1..3, every index a solver integer in -1..3 (all orders, repeats, single, full, first/last, out of range by one on both sides)'],
+               'index collections: length 1..3 (quick: 1..2 except for the plain template), every index a solver integer in -1..3 (all orders, repeats, single, full, first/last, out of range by one on both sides)'],
     'assumptions': ['values are compared up to FM-94\'s identification of a field\'s all-ones pattern with missing (as the property states)',
                     'Quot/FInt abstraction of scaled values (lemma L1 of C03)'],
     'outside': ['command_subset file I/O', 'editions 2/3 and section 2 (C04 covers framing)', 'more than 3 source subsets'],
@@ -31,7 +31,7 @@ def jobs(tier, seed):
     for name in TEMPLATES:
         comp = name.startswith('c-')
         J.append(Job('subset:' + name, 'harness.c10', 'h_subset',
-                     {'template': name, 'max_indices': 3 if (thorough or not comp) else 2, 'no_missing': not thorough and name != 'c-one',
+                     {'template': name, 'max_indices': 3 if (thorough or name == 'u-plain') else 2, 'no_missing': not thorough and name != 'c-one',
                       'max_diff_width': 2 if thorough else 1},
                      timeout=6000 if thorough else 900, witnesses=['refused', 'subset-1', 'subset-2']))
     J.append(Job('canary:repeated-index', 'harness.c10', 'h_subset', {'template': 'u-plain', 'max_indices': 2, 'no_missing': True}, timeout=600,
